@@ -14,57 +14,45 @@ fn fmt_stub2(_a: core::fmt::Arguments<'_>) -> String {
 const SLICE_BYTES: usize = 512; // rb slice = one 512-byte block (rb_slice_bits = 9)
 const WIN: usize = 8; // entries with arbitrary refcounts: the last 8 of the slice
 
+const SNAP: usize = 128; // bytes snapshotted: the last 128 bytes of the slice
+
 /// A refcount-block slice of the real size (512 bytes).  The last `WIN` entries hold arbitrary
 /// refcounts, the entry before them is in use (bounds the backward scan), everything else is free.
-/// Returns the slice and a copy of its bytes.
-fn any_slice(order: u8) -> (RefBlock, [u8; SLICE_BYTES]) {
+fn any_slice(order: u8) -> (RefBlock, [u8; SNAP]) {
     let mut rb = RefBlock::new(order, SLICE_BYTES, None);
     let entries = (SLICE_BYTES * 8) >> order;
     let w = 1usize << order; // bits per entry
-    let nb = core::cmp::max(WIN * w / 8, 1); // bytes of the window
+    let nb = core::cmp::max(WIN * w / 8, 1); // bytes of the window (concrete per instance)
     let init: [u8; 64] = kani::any();
-    let p = rb.as_mut_ptr();
-    let mut k = 0;
-    while k < 64 {
-        if k < nb {
-            unsafe { *p.add(SLICE_BYTES - nb + k) = init[k] };
-        }
-        k += 1;
-    }
-    if w * WIN >= 8 {
-        // the entry just before the window is allocated
-        rb.increment(entries - WIN - 1).unwrap();
-    }
-    let mut snap = [0u8; SLICE_BYTES];
-    let mut k = 0;
-    while k < 72 {
-        let at = SLICE_BYTES - 72 + k;
-        snap[at] = unsafe { *rb.as_ptr().add(at) };
-        k += 1;
-    }
+    unsafe { core::ptr::copy_nonoverlapping(init.as_ptr(), rb.as_mut_ptr().add(SLICE_BYTES - nb), nb) };
+    // the entry just before the window is allocated
+    rb.increment(entries - WIN - 1).unwrap();
+    let snap = snap_of(&rb);
     (rb, snap)
 }
 
-fn bytes_now(rb: &RefBlock) -> [u8; SLICE_BYTES] {
-    let mut snap = [0u8; SLICE_BYTES];
-    let mut k = 0;
-    while k < 72 {
-        let at = SLICE_BYTES - 72 + k;
-        snap[at] = unsafe { *rb.as_ptr().add(at) };
-        k += 1;
-    }
+fn snap_of(rb: &RefBlock) -> [u8; SNAP] {
+    let mut snap = [0u8; SNAP];
+    unsafe { core::ptr::copy_nonoverlapping(rb.as_ptr().add(SLICE_BYTES - SNAP), snap.as_mut_ptr(), SNAP) };
     snap
 }
 
+/// refcount of slice entry `j` (which must lie in the snapshotted tail) per the spec layout
+fn rc(snap: &[u8; SNAP], order: u8, j: usize) -> u64 {
+    let entries = (SLICE_BYTES * 8) >> order;
+    let in_snap = (SNAP * 8) >> order;
+    spec::rc_get(snap, order as u32, j - (entries - in_snap))
+}
+
 macro_rules! alloc_step {
-    ($name:ident, $order:expr) => {
+    ($name:ident, $order:expr, $cblo:expr, $cbhi:expr) => {
         #[kani::proof]
-        #[kani::unwind(74)]
+        #[kani::unwind(12)]
         #[kani::stub(std::fmt::format, fmt_stub2)]
         fn $name() {
             let order: u8 = $order;
             let cb: u32 = kani::any();
-            kani::assume(cb >= 9 && cb <= 21);
+            kani::assume(cb >= $cblo && cb <= $cbhi);
             let info = mk_info(cb, order as u32, 1u64 << 40, 9, Some((9, 1024)), Some((9, 1024)), false, false, false);
             let mut env = KEnv::new(info);
             let entries = (SLICE_BYTES * 8) >> order;
@@ -83,7 +71,7 @@ macro_rules! alloc_step {
             let rt_e = RefTableEntry(kani::any());
             let r = env.seg_a1(&rt_e, &cls, count, fixed);
             let h = env.rb_slice.as_ref().unwrap();
-            let after = bytes_now(&h.value().kwrite());
+            let after = snap_of(&h.value().kwrite());
             let slice_start = host & !((cs << (12 - order as u32)) - 1);
             let j: usize = kani::any();
             kani::assume(j >= entries - WIN - 1 && j < entries);
@@ -100,10 +88,10 @@ macro_rules! alloc_step {
                     }
                     // only refcount-0 clusters are handed out, and each goes 0 -> 1; nothing else changes
                     if j >= idx && j < idx + n {
-                        assert!(spec::rc_get(&before, order as u32, j) == 0);
-                        assert!(spec::rc_get(&after, order as u32, j) == 1);
+                        assert!(rc(&before, order, j) == 0);
+                        assert!(rc(&after, order, j) == 1);
                     } else {
-                        assert!(spec::rc_get(&after, order as u32, j) == spec::rc_get(&before, order as u32, j));
+                        assert!(rc(&after, order, j) == rc(&before, order, j));
                     }
                     assert!(h.is_dirty() && env.need_flush_meta());
                     kani::cover!(n < count, "tail fallback: fewer clusters than requested");
@@ -111,7 +99,7 @@ macro_rules! alloc_step {
                     kani::cover!(n == 3);
                 }
                 Ok(None) => {
-                    assert!(spec::rc_get(&after, order as u32, j) == spec::rc_get(&before, order as u32, j));
+                    assert!(rc(&after, order, j) == rc(&before, order, j));
                     assert!(!h.is_dirty() && !env.need_flush_meta());
                     kani::cover!(start + count > entries, "request crossing the slice end is refused");
                     kani::cover!(start + count <= entries);
@@ -131,10 +119,10 @@ macro_rules! alloc_step {
 // @timeout 1500
 // @needs A1
 // @desc one allocator step (whole body of try_alloc_from_rb_slice, lock and cache lookup shimmed) from an ARBITRARY refcount slice state at 16-bit refcounts: the run returned is contiguous, inside the slice, at or after the requested position, 1 <= n <= count (n == count when fixed_start), every cluster in it had refcount 0 before and 1 after, no other counter changes, the slice is marked dirty and need_flush set; a request crossing the slice end is refused without any change; None leaves everything untouched
-// @bounds slice: real 512-byte slice, arbitrary refcounts in its last 8 entries, entry before them in use, rest free; requested position inside those 8 entries; count 1..=3; fixed_start symbolic; cluster_bits 9..=21 symbolic; refcount_order 4 (concrete per instance)
+// @bounds slice: real 512-byte slice, arbitrary refcounts in its last 8 entries, entry before them in use, rest free; requested position inside those 8 entries; count 1..=3; fixed_start symbolic; cluster_bits 16 (concrete; the index arithmetic is decided for all cluster sizes by c15_host_cluster); refcount_order 4 (concrete per instance)
 // @funcs Qcow2Dev::try_alloc_from_rb_slice (whole body) RefBlock::get_free_range RefBlock::get_tail_free_range RefBlock::alloc_range HostCluster::rb_slice_index HostCluster::cluster_off_from_slice
 // @stub alloc::fmt::format -> String::new()
-alloc_step!(c08_alloc_step_o4, 4);
+alloc_step!(c08_alloc_step_o4, 4, 16, 16);
 
 // @harness c08_alloc_step_o0
 // @props C08 C03 C18
@@ -146,7 +134,7 @@ alloc_step!(c08_alloc_step_o4, 4);
 // @bounds as c08_alloc_step_o4 with refcount_order 0
 // @funcs Qcow2Dev::try_alloc_from_rb_slice (whole body) RefBlock::get_free_range RefBlock::get_tail_free_range RefBlock::alloc_range
 // @stub alloc::fmt::format -> String::new()
-alloc_step!(c08_alloc_step_o0, 0);
+alloc_step!(c08_alloc_step_o0, 0, 16, 16);
 
 // @harness c08_alloc_step_o6
 // @props C08 C03 C18
@@ -158,7 +146,7 @@ alloc_step!(c08_alloc_step_o0, 0);
 // @bounds as c08_alloc_step_o4 with refcount_order 6
 // @funcs Qcow2Dev::try_alloc_from_rb_slice (whole body) RefBlock::get_free_range RefBlock::get_tail_free_range RefBlock::alloc_range
 // @stub alloc::fmt::format -> String::new()
-alloc_step!(c08_alloc_step_o6, 6);
+alloc_step!(c08_alloc_step_o6, 6, 16, 16);
 
 // @harness c08_alloc_step_o2
 // @props C08 C03 C18
@@ -170,7 +158,7 @@ alloc_step!(c08_alloc_step_o6, 6);
 // @bounds as c08_alloc_step_o4 with refcount_order 2
 // @funcs Qcow2Dev::try_alloc_from_rb_slice (whole body)
 // @stub alloc::fmt::format -> String::new()
-alloc_step!(c08_alloc_step_o2, 2);
+alloc_step!(c08_alloc_step_o2, 2, 16, 16);
 
 // @harness c08_alloc_step_o3
 // @props C08 C03 C18
@@ -182,17 +170,17 @@ alloc_step!(c08_alloc_step_o2, 2);
 // @bounds as c08_alloc_step_o4 with refcount_order 3
 // @funcs Qcow2Dev::try_alloc_from_rb_slice (whole body)
 // @stub alloc::fmt::format -> String::new()
-alloc_step!(c08_alloc_step_o3, 3);
+alloc_step!(c08_alloc_step_o3, 3, 16, 16);
 
 macro_rules! free_step {
-    ($name:ident, $order:expr) => {
+    ($name:ident, $order:expr, $cblo:expr, $cbhi:expr) => {
         #[kani::proof]
-        #[kani::unwind(74)]
+        #[kani::unwind(12)]
         #[kani::stub(std::fmt::format, fmt_stub2)]
         fn $name() {
             let order: u8 = $order;
             let cb: u32 = kani::any();
-            kani::assume(cb >= 9 && cb <= 21);
+            kani::assume(cb >= $cblo && cb <= $cbhi);
             let info = mk_info(cb, order as u32, 1u64 << 40, 9, Some((9, 1024)), Some((9, 1024)), false, false, false);
             let mut env = KEnv::new(info);
             let entries = (SLICE_BYTES * 8) >> order;
@@ -213,18 +201,18 @@ macro_rules! free_step {
             let mut k = 0;
             while k < 3 {
                 if k < count {
-                    kani::assume(spec::rc_get(&before, order as u32, start + k) >= 1);
+                    kani::assume(rc(&before, order, start + k) >= 1);
                 }
                 k += 1;
             }
             let r = env.seg_a0(host, count);
             assert!(r.is_ok());
             let h = env.rb_slice.as_ref().unwrap();
-            let after = bytes_now(&h.value().kwrite());
+            let after = snap_of(&h.value().kwrite());
             let j: usize = kani::any();
             kani::assume(j >= entries - WIN - 1 && j < entries);
-            let b = spec::rc_get(&before, order as u32, j);
-            let a = spec::rc_get(&after, order as u32, j);
+            let b = rc(&before, order, j);
+            let a = rc(&after, order, j);
             if j >= start && j < start + count {
                 assert!(a == b - 1); // exactly one reference dropped, once
             } else {
@@ -237,7 +225,7 @@ macro_rules! free_step {
             let mut first_free: Option<u64> = None;
             let mut k = 0;
             while k < 3 {
-                if k < count && first_free.is_none() && spec::rc_get(&after, order as u32, start + k) == 0 {
+                if k < count && first_free.is_none() && rc(&after, order, start + k) == 0 {
                     first_free = Some(host + (k as u64) * cs);
                 }
                 k += 1;
@@ -262,11 +250,11 @@ macro_rules! free_step {
 // @timeout 1500
 // @needs A0
 // @desc one free step (whole body of free_clusters, lock and cache lookup shimmed) from an arbitrary refcount slice state at 16-bit refcounts: every cluster of the run loses exactly one reference, no other counter changes, the slice is marked dirty and need_flush set, the allocation hint never moves up and becomes min(old hint, first cluster whose count reached 0)
-// @bounds slice: real 512-byte slice, arbitrary refcounts in its last 8 entries; run of 1..=3 clusters inside them, each with refcount >= 1 (the caller's references); cluster_bits 9..=21 symbolic; any old hint
+// @bounds slice: real 512-byte slice, arbitrary refcounts in its last 8 entries; run of 1..=3 clusters inside them, each with refcount >= 1 (the caller's references); cluster_bits 16 (concrete); any old hint
 // @funcs Qcow2Dev::free_clusters (whole body) RefBlock::decrement HostCluster::{rt_index,rb_slice_index,rb_slice_host_end}
 // @stub alloc::fmt::format -> String::new()
 // @assume every freed cluster has refcount >= 1 (a free of an unreferenced cluster panics in decrement().unwrap())
-free_step!(c08_free_step_o4, 4);
+free_step!(c08_free_step_o4, 4, 16, 16);
 
 // @harness c08_free_step_o1
 // @props C08 C03 C18
@@ -278,7 +266,7 @@ free_step!(c08_free_step_o4, 4);
 // @bounds as c08_free_step_o4 with refcount_order 1
 // @funcs Qcow2Dev::free_clusters (whole body) RefBlock::decrement
 // @stub alloc::fmt::format -> String::new()
-free_step!(c08_free_step_o1, 1);
+free_step!(c08_free_step_o1, 1, 16, 16);
 
 // @harness c08_free_step_o6
 // @props C08 C03 C18
@@ -290,4 +278,4 @@ free_step!(c08_free_step_o1, 1);
 // @bounds as c08_free_step_o4 with refcount_order 6
 // @funcs Qcow2Dev::free_clusters (whole body) RefBlock::decrement
 // @stub alloc::fmt::format -> String::new()
-free_step!(c08_free_step_o6, 6);
+free_step!(c08_free_step_o6, 6, 16, 16);
